@@ -105,6 +105,8 @@ def run(ctx):
             progs.append("[%s, %s] elem %s" % (a, a, w))
     for w in WORDS2:
         for a, b in rng.sample(list(itertools.product(pool, pool)), 60 if quick else 300):
+            if a.lstrip("(").startswith("{") and b.lstrip("(").startswith("{") and w[1:] in ("eq", "ne", "lt", "gt", "le", "ge"):
+                continue            # two closures have no documented order (they compare by where they live)
             progs.append("[%s, %s] elem %s %s" % (a, a, b, w))
             progs.append("%s [%s, %s] elem %s" % (b, a, a, w))
     # ... systematically within each family (where the words do real work): both operand orders,
